@@ -132,6 +132,32 @@ Definition encode_key_path (ks : list key) (default : bytes * bytes) : bytes :=
   | last :: _ => encode_key_path_loop (k_leaf last) default true ks
   end.
 
+(* encode.rs is_blank: only blanks may surround the keys inside a `[table]` header (a decor that is absent is blank) *)
+Definition raw_blank (r : option raw) : bool :=
+  match r with
+  | None => true
+  | Some REmpty => true
+  | Some (RExplicit s) => forallb (fun b => byte_eqb b x20 || byte_eqb b x09) s
+  | Some (RSpanned _ _) => true          (* `to_str_with_default(input, "")` without the source text *)
+  end.
+
+(* encode_key_path as used for headers: a leaf prefix that is not blank (the comment above a former `key = value`
+   line) is not written inside the brackets ... *)
+Definition encode_header_key_path (ks : list key) (default : bytes * bytes) : bytes :=
+  match rev ks with
+  | [] => []
+  | last :: _ =>
+    let leaf := k_leaf last in
+    let leaf' := if raw_blank (d_prefix leaf) then leaf else mkDecor None (d_suffix leaf) in
+    encode_key_path_loop leaf' default true ks
+  end.
+(* ... encode_key_comments: it is written in front of the header instead *)
+Definition encode_key_comments (ks : list key) : bytes :=
+  match rev ks with
+  | [] => []
+  | last :: _ => if raw_blank (d_prefix (k_leaf last)) then [] else decor_prefix (k_leaf last) []
+  end.
+
 (* Table::append_values / InlineTable::append_values: the (key path, value) lines of a section *)
 Fixpoint inline_values (fuel : nat) (parent : list key) (items : kvs) : list (list key * value) :=
   match fuel with
@@ -263,8 +289,8 @@ Definition visit_table (t : tbl) (path : list key) (is_array : bool) (first_tabl
   let visible := negb (t_implicit t && no_children) in
   let header (open_ close_ : bytes) :=
       let default := if first_table then ([], snd DEFAULT_TABLE_DECOR) else DEFAULT_TABLE_DECOR in
-      decor_prefix (t_decor t) (fst default) ++ open_
-      ++ encode_key_path path DEFAULT_KEY_PATH_DECOR ++ close_
+      decor_prefix (t_decor t) (fst default) ++ encode_key_comments path ++ open_
+      ++ encode_header_key_path path DEFAULT_KEY_PATH_DECOR ++ close_
       ++ decor_suffix (t_decor t) (snd default) ++ [x0a] in
   let '(head, first') :=
       match path with
